@@ -90,7 +90,13 @@ fn random_tree(rng: &mut Rng, depth: u32) -> Tree {
     match rng.below(if depth == 0 { 6 } else { 8 }) {
         0 => Tree::Null,
         1 => Tree::Bool(true),
-        2 => Tree::Int(rng.range(-5, 1 << 40) as i128),
+        // integers of every width a format can carry: 32, 64 and (Smile's BigInteger) up to 128 bits
+        2 => match rng.below(4) {
+            0 => Tree::Int(rng.range(-5, 1 << 40) as i128),
+            1 => Tree::Int(*rng.pick(&[i64::MIN as i128, i64::MAX as i128, u64::MAX as i128])),
+            2 => Tree::Int(*rng.pick(&[-(1i128 << 100), (1i128 << 100) + 12345, i128::MAX - 5, i128::MIN + 5, (u64::MAX as i128) + 1])),
+            _ => Tree::Int(rng.range(-5, 200) as i128),
+        },
         3 => Tree::Str(rng.pick(&["", "NaN", "x", "QUJD"]).to_string()),
         4 => Tree::Dbl(Dbl::of(1.5)),
         5 => Tree::Arr(vec![]),
